@@ -18,6 +18,10 @@
        _filter_values(must=True): that propagates and is an error response too);
      * get_entity_categories without a (truthy) metadata store: the requester is in no category
        (ecs = []), the loop over the category maps runs all the same.
+   After the repair 4be62a1c (finding C10-F5): get_entity_categories works out the names of the
+   REQUIRED attributes from Name + NameFormat first (lower-cased Name, .get("name_format")), the
+   FriendlyName only when the attribute maps do not know the Name; names that cannot be worked out
+   are skipped (no exception any more).  Before: req_name_v0 / get_ec_lf / restrict_lf.
    The behaviour before the repairs is kept at the end of the file as *_v0 definitions
    (Proofs.server_release_v0_refuted / nostore_v0_refuted).
 
@@ -291,8 +295,21 @@ Section WithData.
   Definition maps_of (names : list string) : list ecentry :=
     flat_map (fun n => match lookup n ectab with Some m => m | None => [] end) names.
 
-  (* d.get("friendly_name") or get_local_name(acs, d["name"], d["name_format"]), then .lower() *)
-  Definition req_name (d : reqattr) : result string :=
+  (* after the repair 4be62a1c (finding C10-F5):
+       get_local_name(acs, d["name"].lower(), d.get("name_format")) or d.get("friendly_name"),
+     names that cannot be worked out are skipped, then .lower(): Name + NameFormat first, the label only
+     when the attribute maps do not know the Name - the same order as filter_on_attributes *)
+  Definition req_name (d : reqattr) : list string :=
+    match tr (ra_loc_l d) with
+    | Some l => [lower l]
+    | None => match tr (ra_friendly d) with Some f => [lower f] | None => [] end
+    end.
+
+  Definition req_names (ds : list reqattr) : list string := flat_map req_name ds.
+
+  (* BEFORE 4be62a1c: d.get("friendly_name") or get_local_name(acs, d["name"], d["name_format"]), then
+     .lower() - the label first *)
+  Definition req_name_v0 (d : reqattr) : result string :=
     match tr (ra_friendly d) with
     | Some f => Ok (lower f)
     | None =>
@@ -305,11 +322,11 @@ Section WithData.
         end
     end.
 
-  Fixpoint req_names (ds : list reqattr) : result (list string) :=
+  Fixpoint req_names_v0 (ds : list reqattr) : result (list string) :=
     match ds with
     | [] => Ok []
     | d :: r =>
-        match req_name d, req_names r with
+        match req_name_v0 d, req_names_v0 r with
         | Ok n, Ok ns => Ok (n :: ns)
         | _, _ => Crash
         end
@@ -342,8 +359,20 @@ Section WithData.
     | Some s =>
         match s_ecs s with
         | [] => Ok []
+        | names => Ok (fold_left (ec_step (req_names req) (ecs_of ecs)) (maps_of names) [])
+        end
+    end.
+
+  (* BEFORE 4be62a1c (finding C10-F5): the names of the required attributes read label first *)
+  Definition get_ec_lf (s : option section) (ecs : option (list string)) (req : list reqattr)
+    : result (list string) :=
+    match s with
+    | None => Ok []
+    | Some s =>
+        match s_ecs s with
+        | [] => Ok []
         | names =>
-            match req_names req with
+            match req_names_v0 req with
             | Ok rn => Ok (fold_left (ec_step rn (ecs_of ecs)) (maps_of names) [])
             | _ => Crash
             end
@@ -517,8 +546,8 @@ Section WithData.
   Definition get_ec_v0 (s : option section) (ecs : option (list string)) (req : list reqattr)
     : result (list string) :=
     match ecs with
-    | None => match get_ec s ecs req with Ok _ => Ok [] | r => r end
-    | Some _ => get_ec s ecs req
+    | None => match get_ec_lf s ecs req with Ok _ => Ok [] | r => r end
+    | Some _ => get_ec_lf s ecs req
     end.
 
   (* no fail_on_missing parameter *)
@@ -542,6 +571,29 @@ Section WithData.
 
   Definition restrict_v0 (a : ava) (p : policy) (sp : string) (md : option mdinfo) : result ava :=
     pfilter_v0 a p sp (eff_ecs md) (eff_ra md) (eff_required md) (eff_optional md).
+
+  (* 4be62a1c alone: the code as it is now except that get_entity_categories reads the label first
+     (a4e3dbdd / 47cc754e in place) *)
+  Definition pfilter_lf (a : ava) (p : policy) (sp : string) (ecs : option (list string))
+             (ra : option string) (req opt : list reqattr) (fo : option bool) : result ava :=
+    let sec := applicable p sp ra in
+    match get_ec_lf sec ecs req with
+    | Ok er =>
+        let r1 := match er with
+                  | _ :: _ => Ok (fava a (Some (names_restr er)))
+                  | [] => if is_nil req && is_nil opt then Ok a
+                          else filter_on_attributes a req opt (eff_fail fo sec)
+                  end in
+        match r1 with
+        | Ok s => Ok (fava s (get_ar sec))
+        | Missing => Missing
+        | Crash => Crash
+        end
+    | _ => Crash
+    end.
+  Definition restrict_lf (a : ava) (p : policy) (sp : string) (md : option mdinfo) (fo : option bool)
+    : result ava :=
+    pfilter_lf a p sp (eff_ecs md) (eff_ra md) (eff_required md) (eff_optional md) fo.
 
   (* a4e3dbdd: MissingValue swallowed when best_effort - the Assertion kept the unfiltered identity *)
   Definition setup_assertion_v0 (best_effort : bool) (a : ava) (p : policy) (sp : string)
